@@ -17,7 +17,7 @@ def _bits(q):
 
 
 NAN_PAYLOAD = _bits(0x7ff8000000000123)
-NAN_NEG_SIG = _bits(0xfff0000000000001)
+NAN_NEG_SIG = _bits(0xfff8000000000001)      # negative quiet NaN with payload (signalling NaNs are not used)
 
 # Palettes: all entries bitwise distinct.  VERIF_SEED only rotates them.
 INT_PAL = [0, 1, -1, 2 ** 31, -2 ** 31 - 1, 2 ** 63 - 1, -2 ** 63, 7, 2 ** 53 + 1, -12345678901234, 255, -256]
